@@ -48,6 +48,21 @@ def install_job_wrapper(fsize_limit, fail_index, delays=None):
     pp._job_binary_event_file = _job_binary_event_file
 
 
+def install_spool_wrapper(fsize_limit):
+    """the storage runs out while the main process spools generator input to a text file"""
+    import pyndl.io as pio
+    orig = pio.events_to_file
+
+    def events_to_file(*a, **kw):
+        old = resource.getrlimit(resource.RLIMIT_FSIZE)
+        resource.setrlimit(resource.RLIMIT_FSIZE, (fsize_limit, old[1]))
+        try:
+            return orig(*a, **kw)
+        finally:
+            resource.setrlimit(resource.RLIMIT_FSIZE, old)
+    pio.events_to_file = events_to_file
+
+
 def vectors(tbl, dim_name, row_name):
     import xarray as xr
     vals = np.array(tbl["values"], dtype=np.float64).reshape(len(tbl["rows"]), len(tbl["dims"]))
@@ -79,6 +94,8 @@ def handler(job):
     pol = {0: None, 1: True, 2: False}[job.get("pol", 0)]
     if job.get("fsize_limit") is not None or job.get("delays"):
         install_job_wrapper(job.get("fsize_limit"), job.get("fail_index"), job.get("delays"))
+    if job.get("spool_fsize_limit") is not None:
+        install_spool_wrapper(job["spool_fsize_limit"])
     given_tmp = None
     if job.get("give_tmp", True):
         given_tmp = os.path.join(wd, "given_tmp")
